@@ -183,6 +183,27 @@ def build() -> Check:
             badt.append(("a branch parked on a timer does not record its resume time", t))
     ck.floor("timed_suspension_paths", n_timed, 1)
     ck.ob("R5.timed-branch-is-scheduled", fn_construct(fn_dc), not badt, badt[0][0] if badt else "")
+    # The thread in execute() blocks on the completion event without a timeout and only the done-callbacks release it: every way a
+    # branch can end changes "all finished or parked", so every such path must re-evaluate it (and release the waiter when it holds).
+    badr = []
+    n_end = 0
+    for t in dtr:
+        res = [e for e in t.events if e.kind == "RESULT"]
+        oc = res[0].data["outcome"] if res else "cancelled"
+        if oc in ("BackgroundThreadError", "OrphanedChildException", "cancelled") or t.outcome == "raise":
+            continue  # fatal error (routed separately, C06), orphan / cancelled future (the operation was decided before)
+        n_end += 1
+        d = dict(t.pc)
+        if t.kinds("COMPLETION_SET"):
+            continue  # the waiter is released on this path
+        if d.get("counters.should_complete()") is None or (d.get("counters.should_complete()") is False and d.get("should_execution_suspend()") is None):
+            badr.append((f"a branch ends ({oc}) and the callback returns without re-evaluating whether all branches are finished or parked "
+                         "(execute() stays blocked on the completion event if this was the last running branch)", t))
+        elif d.get("should_execution_suspend()") is True:
+            badr.append((f"a branch ends ({oc}), all branches are finished or parked, and the waiter is not released", t))
+    ck.floor("branch_end_paths", n_end, 6)
+    ck.ob("R2.suspension-reevaluated-on-branch-end", fn_construct(fn_dc), not badr,
+          (badr[0][0] + " | " + "; ".join(f"{k}->{v}" for k, v in badr[0][1].pc)) if badr else f"{n_end} branch-end paths")
 
     # R4 blocking inventory ------------------------------------------------------------------------------
     found = {}
@@ -200,10 +221,10 @@ def build() -> Check:
                 unbounded = True
             elif m == "result" and not has_timeout and any(w in recv.lower() for w in ("future", "fut")):
                 unbounded = True
-            elif m == "get" and not c.args and not c.keywords and "queue" in recv.lower():
-                unbounded = True
-            elif m == "join" and not has_timeout and ("thread" in recv.lower()):
-                unbounded = True
+            elif m == "get" and not c.args and not c.keywords:
+                unbounded = True  # a zero-argument get() is a blocking queue read whatever the receiver is called (dict.get needs a key)
+            elif m == "join" and not c.args and not c.keywords:
+                unbounded = True  # thread / queue / process join without a timeout (str.join and os.path.join take arguments)
             elif m == "acquire" and not has_timeout and fi.cls is not None and fi.cls.name != "OrderedLock" and "lock" in recv.lower():
                 unbounded = False  # OrderedLock.acquire is judged at its own wait
             if unbounded:
